@@ -2,7 +2,7 @@
    Model: Pd/Layout.v (both configuration paths, window bookkeeping, group start addresses, the
    device-side meaning of an FMMU).  Statements are for the Debug integer mode, where a run that
    does not panic has passed every width check; c08_release carries them to Release. *)
-From EC Require Import Base.Prelude Base.Bytes Pd.Layout Pd.LayoutProofs.
+From EC Require Import Base.Prelude Base.Bytes Pd.Layout Pd.LayoutProofs Wire.Layout Gen.SrcLayouts Net.Commute.
 Local Open Scope N_scope.
 
 (* windows of a group that came up: inputs of all devices first, then all outputs, consecutive and
@@ -124,3 +124,60 @@ Theorem c08_example :
    [3; 4608; 4; 32; 1; 2; 4352; 2; 100; 1] ++ [-9])%Z.
 Proof. exact ex_group_ok. Qed.
 Print Assumptions c08_example.
+
+(* tie to the declarations regenerated from /repo on every run: the register images have the
+   ETG.1000.4 shapes the device side reads, and the usage codes are the declared discriminants *)
+Theorem c08_fmmu_register_layout :
+  match place layout_Fmmu with
+  | Ok ps => map (fun p => (pstart p, pbits p)) ps =
+             [(0, 32); (32, 16); (48, 3); (56, 3); (64, 16); (80, 3); (88, 1); (89, 1); (96, 1)]
+  | _ => False
+  end /\ lwidth layout_Fmmu = 128.
+Proof. exact fmmu_register_layout. Qed.
+Print Assumptions c08_fmmu_register_layout.
+
+Theorem c08_sm_register_layout :
+  match place layout_SyncManagerChannel with
+  | Ok ps => map (fun p => (pstart p, pbits p)) ps = [(0, 16); (16, 16); (32, 8); (40, 8); (48, 16)]
+  | _ => False
+  end /\ lwidth layout_SyncManagerChannel = 64.
+Proof. exact sm_register_layout. Qed.
+Print Assumptions c08_sm_register_layout.
+
+Theorem c08_usage_codes :
+  map vdisc (evariants enum_SyncManagerType) = [Some 0; Some 1; Some 2; Some (Z.of_N (sm_ty DOut)); Some (Z.of_N (sm_ty DIn))]%Z /\
+  map vdisc (evariants enum_FmmuUsage) = [Some 0; Some (Z.of_N (fm_ty DOut)); Some (Z.of_N (fm_ty DIn)); Some 3]%Z.
+Proof. exact usage_codes. Qed.
+Print Assumptions c08_usage_codes.
+
+(* ---------- the consequence clause, end to end (Net/Commute.v) ----------
+   One logical datagram over the group's image, passed through the group's devices in ring order
+   ([ring]: each device reads and writes through its FMMUs, [lrw_dev]).  For a group of
+   EEPROM-configured devices with sane descriptions ([dev_sane]: at most 16 sync managers, the
+   memory areas of the output sync managers apart from each other and from the input areas), brought
+   up as the model describes: every device's output window arrives in that device's output memory
+   (byte t of sync manager k's sub-window in byte t of its memory) and every other byte of every
+   device's memory is untouched; every device's input memory comes back in its input window; the
+   rest of the image comes back unchanged ([dev_result]). *)
+Theorem c08_group_cycle : forall start max dvs g ms image,
+  cfg_group Debug start max (map init_dev dvs) = Ok g ->
+  Forall dev_sane dvs -> length ms = length dvs -> N.of_nat (length image) = g_pdi_len g ->
+  let cs := build start (g_devs g) (g_in g) (g_out g) ms in
+  let '(ms', out) := ring cs start image in
+  length out = length image /\
+  Forall2' (dev_result start image out) cs ms' /\
+  (forall t, (t < length image)%nat ->
+     (forall c, In c cs -> ~ (fst (c_win c) <= start + N.of_nat t /\ start + N.of_nat t < snd (c_win c))) ->
+     nth t out 0 = nth t image 0).
+Proof. exact group_cycle. Qed.
+Print Assumptions c08_group_cycle.
+
+Theorem c08_group_cycle_example :
+  exists g, cfg_group Debug 96 64 (map init_dev [ex_io]) = Ok g /\ dev_sane ex_io /\ g_pdi_len g = 15 /\
+    let cs := build 96 (g_devs g) (g_in g) (g_out g) [fun x => x mod 251] in
+    let '(ms', out) := ring cs 96 [0;0;0;0;0;0;0;0;0;0;0;0; 171;205;239] in
+    out = [4360 mod 251; 4361 mod 251; 4400 mod 251; 4401 mod 251; 4402 mod 251; 4403 mod 251; 4404 mod 251; 4405 mod 251;
+           4406 mod 251; 4407 mod 251; 4408 mod 251; 4409 mod 251; 171; 205; 239] /\
+    match ms' with [m'] => [m' 4352; m' 4353; m' 4354; m' 4355; m' 4360] = [171; 205; 239; 4355 mod 251; 4360 mod 251] | _ => False end.
+Proof. exact group_cycle_example. Qed.
+Print Assumptions c08_group_cycle_example.
